@@ -107,16 +107,53 @@ func propC13(c *Ctx) {
 		}
 		for _, ci := range reg.Calls() {
 			call, isCall := ci.(*ssa.Call)
-			if !isCall || calleeName(call) != "bytes.Equal" {
+			if !isCall || !isByteEqualCall(call) { // bytes.Equal, slices.Equal, bytes.Compare(…) == 0
 				continue
 			}
 			a0, a1 := stripConv(call.Call.Args[0]), stripConv(call.Call.Args[1])
 			if (isSig(a0) && isTopic0(a1)) || (isSig(a1) && isTopic0(a0)) {
-				hashCall = call
-				t, _ := boolEdges(call)
+				if ht, isHT := eqValue(call).(hashTest); isHT {
+					hashCall = ht
+				} else {
+					hashCall = call
+				}
+				t, _ := eqEdges(call)
 				hashG = append(hashG, gate{call.Parent(), t})
 			}
 		}
+		// … or as a comparison of the two converted to strings: string(ig.sighash) == string(Topics[0])
+		reg.AllInstrs(func(in ssa.Instruction) {
+			b, isB := in.(*ssa.BinOp)
+			if !isB || (b.Op != token.EQL && b.Op != token.NEQ) {
+				return
+			}
+			asBytes := func(v ssa.Value) (ssa.Value, bool) {
+				cv, ok := v.(*ssa.Convert)
+				if !ok {
+					return nil, false
+				}
+				if bt, isB := cv.Type().Underlying().(*types.Basic); !isB || bt.Kind() != types.String {
+					return nil, false
+				}
+				if !isByteSeq(cv.X.Type()) {
+					return nil, false
+				}
+				return stripConv(cv.X), true
+			}
+			x, okx := asBytes(b.X)
+			y, oky := asBytes(b.Y)
+			if !okx || !oky {
+				return
+			}
+			if (isSig(x) && isTopic0(y)) || (isSig(y) && isTopic0(x)) {
+				hashCall = b
+				t, f := boolEdges(b)
+				if b.Op == token.NEQ {
+					t = f
+				}
+				hashG = append(hashG, gate{b.Parent(), t})
+			}
+		})
 		// … or as a comparison of arrays: [32]byte(Topics[0]) == sighash
 		reg.AllInstrs(func(in ssa.Instruction) {
 			b, isB := in.(*ssa.BinOp)
